@@ -87,7 +87,9 @@ theorem c09_server_context (U : Hdrs) (cid : Bytes) (opid : Nat) (ms : Int) (ctr
   have hcid : w.get? cidHeader = some cid := by
     rw [Hdrs.get?_perm w _ hw hndw, callerCtx_req cid opid U ms hU]
     simp [Hdrs.get?]
-  simp only [readRequestHeader, c04_stream_roundtrip w p hndw hs, serverCtx_eq w _ _ hndw hop, hcid, Option.getD_some]
+  have hsv := serverCtx_eq w (ctr + 1) _ hndw hop
+  rw [hcid] at hsv
+  exact readRequestHeader_ok _ p w ctr _ (c04_stream_roundtrip w p hndw hs) hsv
 
 /-- The handler's request headers are a permutation of `handlerView`. -/
 private theorem handler_perm (U : Hdrs) (cid : Bytes) (opid : Nat) (ms : Int) (fresh : Nat) (w : Hdrs)
@@ -99,7 +101,8 @@ private theorem handler_perm (U : Hdrs) (cid : Bytes) (opid : Nat) (ms : Int) (f
       = (cidHeader, cid) :: (timeoutHeader, formatInt ms) :: U := by
     have hu := Hdrs.without_of_not_mem U opIdHeader hU.2.1
     simp only [Hdrs.without] at hu ⊢
-    simp [List.filter_cons, Ne.symm op_ne_cid, Ne.symm op_ne_tmo, hu]
+    simp only [List.filter_cons, Ne.symm op_ne_cid, Ne.symm op_ne_tmo, ne_eq, not_true_eq_false, not_false_eq_true,
+      decide_true, decide_false, if_true, if_false, Bool.false_eq_true, hu]
   rw [h2] at h1
   exact List.perm_append_comm.trans (List.Perm.cons _ h1)
 
@@ -152,7 +155,7 @@ theorem c09_request_seen (U : Hdrs) (cid : Bytes) (opid : Nat) (ms : Int) (ctr :
   · show decodeTimeout ((Hdrs.get? _ timeoutHeader).getD []) =
       decodeTimeout ((Hdrs.get? (callerCtx cid opid U ms).req timeoutHeader).getD [])
     rw [handler_lookup U cid opid ms _ w hU hw, callerCtx_req cid opid U ms hU]
-    simp [handlerView, Hdrs.get?, op_ne_tmo, cid_ne_tmo, Ne.symm op_ne_cid]
+    simp [handlerView, Hdrs.get?, op_ne_tmo, cid_ne_tmo]
 
 /-- **The context given to the handler carries a fresh op id**: the next value of the server's
 counter (`getOpID` returns it), different from every id the counter issued before, and different
@@ -169,7 +172,7 @@ theorem c09_fresh_opid (U : Hdrs) (cid : Bytes) (opid : Nat) (ms : Int) (ctr : N
     rw [handler_lookup U cid opid ms _ w hU hw]
     simp [handlerView, Hdrs.get?]
   refine ⟨_, hrd, ?_, hop, ?_, ?_, ?_⟩
-  · simp [ctrAfterRead, hrd]
+  · exact ctrAfterRead_ok _ ctr _ hrd
   · simp only [Ctx.opId, hop, parseU64_natDigits _ hctr]
   · intro issued hle
     show Hdrs.get? _ opIdHeader ≠ _
@@ -249,12 +252,13 @@ theorem c09_response_seen (U : Hdrs) (cid : Bytes) (opid : Nat) (ms : Int) (ctr 
   have hndw' : w'.keys.Nodup := (hw'.map Prod.fst).nodup_iff.mpr hnd1
   have hndwo := Hdrs.nodup_without w' opIdHeader hndw'
   -- lookups of the merged map
+  have hw'' : w'.Perm (Hdrs.setAll (replyIds (natDigits opid) cid) R) := hw'
   have seen : ∀ k v, k ≠ opIdHeader → Hdrs.get? (Hdrs.setAll (replyIds (natDigits opid) cid) R) k = some v →
       Hdrs.get? (Hdrs.setAll prior (w'.without opIdHeader)) k = some v := by
     intro k v hk hg
-    rw [← Hdrs.get?_perm w' _ hw' hndw', ← Hdrs.get?_without_other w' opIdHeader k (Ne.symm hk)] at hg
+    rw [← Hdrs.get?_perm w' _ hw'' hndw', ← Hdrs.get?_without_other w' opIdHeader k (Ne.symm hk)] at hg
     exact Hdrs.get?_setAll_mem _ k v hndwo ((Hdrs.get?_eq_some_iff _ hndwo k v).mp hg) prior
-  refine ⟨_, by simp only [readResponseHeader, c04_stream_roundtrip w' p' hndw' hs'], seen, ?_, ?_, ?_, rfl⟩
+  refine ⟨_, readResponseHeader_ok _ _ p' w' (c04_stream_roundtrip w' p' hndw' hs'), seen, ?_, ?_, ?_, rfl⟩
   · intro hRnd k v hkv hk
     exact seen k v hk (Hdrs.get?_setAll_mem R k v hRnd hkv _)
   · intro hc hcR
@@ -288,10 +292,10 @@ written header map with distinct names that lacks the name). -/
 theorem c09_missing_opid (h : Hdrs) (p : Bytes) (ctr : Nat) (hnd : h.keys.Nodup) (hs : Small h)
     (hno : opIdHeader ∉ h.keys) :
     readRequestHeader (marshal h ++ p) ctr = .err .invalidData ∧ ctrAfterRead (marshal h ++ p) ctr = ctr := by
-  have : readRequestHeader (marshal h ++ p) ctr = .err .invalidData := by
-    simp only [readRequestHeader, c04_stream_roundtrip h p hnd hs,
-      serverCtx_missing h _ (Hdrs.get?_none_of_not_mem h opIdHeader hno)]
-  exact ⟨this, by simp [ctrAfterRead, this]⟩
+  have : readRequestHeader (marshal h ++ p) ctr = .err .invalidData :=
+    readRequestHeader_err _ p h ctr _ (c04_stream_roundtrip h p hnd hs)
+      (serverCtx_missing h _ (Hdrs.get?_none_of_not_mem h opIdHeader hno))
+  exact ⟨this, ctrAfterRead_err _ ctr _ this⟩
 
 /-! Non-vacuity: a concrete call meets every hypothesis (two user headers, a non-empty
 correlation id, a 1500 ms timeout, the wire order = the insertion order). -/
